@@ -53,11 +53,17 @@ def mdesc(ret, params):
 
 
 # ------------------------------------------------------------------------------------------------ assembling
+PAYLOAD = "payload"          # pseudo item ("payload", "fill-array-data" | "packed-switch"): the 31t instruction, a goto over
+PAYLOAD_BYTES = 12           # its payload, and the payload itself IN THE MIDDLE of the method (4-byte aligned by a leading nop)
+
+
 def kind_of(op):
-    return D.OPC[D.NAME2OP[op]][2]
+    return None if op == PAYLOAD else D.OPC[D.NAME2OP[op]][2]
 
 
-def item_len(item):
+def item_len(item, off=0):
+    if item[0] == PAYLOAD:
+        return (2 if off % 4 else 0) + 6 + 2 + PAYLOAD_BYTES
     return 2 * D.units(D.OPC[D.NAME2OP[item[0]]][1])
 
 
@@ -66,8 +72,20 @@ def layout(body):
     out, off = [], 0
     for it in body:
         out.append((off, it))
-        off += item_len(it)
+        off += item_len(it, off)
     return out
+
+
+def _payload_item(which, off):
+    b = D.enc("nop") if off % 4 else b""
+    if which == "fill-array-data":
+        pl = D.fill_array_payload(1, b"\x01\x02\x03\x04")
+        b += D.enc("fill-array-data", 0, 4)                    # payload 4 units ahead (3 + goto)
+    else:
+        pl = D.packed_switch_payload(0, [4 + PAYLOAD_BYTES // 2])     # the only case: continue behind the payload
+        b += D.enc("packed-switch", 0, 4)
+    assert len(pl) == PAYLOAD_BYTES
+    return b + D.enc("goto", 1 + PAYLOAD_BYTES // 2) + pl
 
 
 def _nargs(params):
@@ -79,6 +97,9 @@ def emit(body):
     def f(ix):
         b = bytearray()
         for op, tgt in body:
+            if op == PAYLOAD:
+                b += _payload_item(tgt, len(b))
+                continue
             fmt, kind = D.OPC[D.NAME2OP[op]][1], D.OPC[D.NAME2OP[op]][2]
             if kind == "method":
                 idx = ix.method(tgt[0], tgt[1], tgt[2], tgt[3])
@@ -147,7 +168,9 @@ METHODS = {
 }
 FIELDS = {
     "A.f": (A, "f", "I"),
+    "A.f2": (A, "f", "Ljava/lang/String;"),            # same name as A.f, other type (legal in DEX)
     "B.g": (B, "g", "I"),
+    "B.g2": (B, "g", "J"),                             # same name as B.g, other type
     "B.s": (B, "s", "Ljava/lang/String;"),             # static
     "E.h": (E, "h", "I"),                              # external
     "D.k": (DD, "k", "I"),                             # defined in the SECOND DEX of the analysis
@@ -159,7 +182,7 @@ FIELD_OPS_ALL = [p + s for p in ("iget", "iput", "sget", "sput")
                  for s in ("", "-wide", "-object", "-boolean", "-byte", "-char", "-short")]
 # one opcode per width family, every access form twice
 FIELD_OPS = ["iget", "iput-wide", "sget-object", "sput-boolean", "iget-byte", "iput-char", "sget-short", "sput"]
-STRINGS = ["s1", "s2", "LB;"]                          # "LB;" shares its pool entry with a type descriptor
+STRINGS = ["s1", "s2", "LB;", ""]                      # "LB;" shares its pool entry with a type descriptor; "" is falsy
 STRING_OPS = ["const-string", "const-string/jumbo"]
 TYPES = [B, A, E, "[" + B, "[I"]
 TYPE_OPS = ["new-instance", "const-class"]
@@ -182,7 +205,7 @@ def _alphabet(method_targets, field_ops):
     for op in TYPE_OPS:
         for t in TYPES:
             al.append((op, t))
-    return al + list(NOISE)
+    return al + list(NOISE) + [(PAYLOAD, "fill-array-data"), (PAYLOAD, "packed-switch")]
 
 
 # instance-of / new-array are 22c with a type index: emit() handles 22c generically (A=0, B=1, idx)
@@ -206,12 +229,14 @@ def xm3(seqs, second_first=False):
         ms.append(Meth(me[1], body=[(op, me if tgt == METHODS["A.m"] else tgt) for op, tgt in map(item_of, seq)]))
     n_body = [("invoke-static", METHODS["E.x"]), ("invoke-virtual", METHODS["B.u"]), ("invoke-direct/range", METHODS["B.t"]),
               ("sget-object", FIELDS["B.s"]), ("iput", FIELDS["A.f"]), ("const-string", "s2"), ("const-class", E),
-              ("invoke-virtual", METHODS["OA.clone"])]
+              ("invoke-virtual", METHODS["OA.clone"]), ("const-string/jumbo", "")]
     r_body = [("iget", FIELDS["A.f"]), ("sput", FIELDS["D.k"]), ("invoke-static/range", METHODS["E.x"]),
               ("invoke-virtual", METHODS["B.t"]), ("const-string/jumbo", "s1"), ("new-instance", B)]
-    a = Cls(A, ifields=[("f", "I")], methods=ms + [Meth("n", body=n_body)])
-    b = Cls(B, ifields=[("g", "I")], sfields=[("s", "Ljava/lang/String;")],
-            methods=[Meth("t", "V", ("I", "J"), body=[]), Meth("clone", OBJ, (), body=[])],
+    # B references itself (B.t) before D references B, and B references A after A may have referenced itself (A.m<k>)
+    a = Cls(A, ifields=[("f", "I"), ("f", "Ljava/lang/String;")], methods=ms + [Meth("n", body=n_body)])
+    b = Cls(B, ifields=[("g", "I"), ("g", "J")], sfields=[("s", "Ljava/lang/String;")],
+            methods=[Meth("t", "V", ("I", "J"), body=[("new-instance", B)]),
+                     Meth("clone", OBJ, (), body=[("const-class", A), ("iget-wide", FIELDS["B.g2"]), ("iput", FIELDS["B.g"])])],
             declared=[("u", "I", ())])
     d = Cls(DD, ifields=[("k", "I")], methods=[Meth("r", body=r_body)])
     return Model([[d], [a, b]] if second_first else [[a, b], [d]])
@@ -237,7 +262,8 @@ def interaction(n, matrix, blocks):
     range(n) = the DEX files in add order."""
     classes = []
     for i in range(n):
-        body = [("const-string", "k%d" % i), ("iget", (cname(i), "f", "I")), ("invoke-static", (E, "x", "V", ("I",)))]
+        body = [("const-string", "k%d" % i), ("iget", (cname(i), "f", "I")), ("invoke-static", (E, "x", "V", ("I",))),
+                ("new-instance", cname(i))]                     # a reference of the class to itself
         for j in range(n):
             if i == j:
                 continue
